@@ -122,20 +122,22 @@ theorem hg_new_wf_iff (s t : IC FinFun) (w : List O) (x : List A) (hs : s.WF) (h
   · intro h
     exact ⟨rfl, h.src_count, h.tgt_count, h.src_nodes, h.tgt_nodes⟩
 
+example : (⟨⟨[2, 0], 3⟩, ⟨[0, 1], 3⟩⟩ : IC FinFun).WF ∧ (⟨⟨[1, 1], 3⟩, ⟨[2, 2], 3⟩⟩ : IC FinFun).WF := by
+  decide
 example : HG.new (⟨⟨[2, 0], 3⟩, ⟨[0, 1], 3⟩⟩) ⟨⟨[1, 1], 3⟩, ⟨[2, 2], 3⟩⟩ ["A", "B", "C"] ["f", "g"] =
     .ok ⟨⟨⟨[2, 0], 3⟩, ⟨[0, 1], 3⟩⟩, ⟨⟨[1, 1], 3⟩, ⟨[2, 2], 3⟩⟩, ["A", "B", "C"], ["f", "g"]⟩ := by
-  decide
+  rfl
 example : HG.new (⟨⟨[2], 3⟩, ⟨[0, 1], 3⟩⟩) ⟨⟨[1, 1], 3⟩, ⟨[2, 2], 3⟩⟩ ["A", "B", "C"] ["f", "g"] =
-    .error .sourcesCount := by decide
+    .error .sourcesCount := rfl
 example : HG.new (⟨⟨[2, 0], 3⟩, ⟨[0, 1], 3⟩⟩) ⟨⟨[1, 1], 3⟩, ⟨[2, 2], 4⟩⟩ ["A", "B", "C"] ["f", "g"] =
-    .error .targetsSet := by decide
+    .error .targetsSet := rfl
 
 /-- the checks of `validate` are shallow: with component arrays that are NOT well-formed (public
     fields allow building them unchecked) a hypergraph with a dangling node reference is accepted -/
 example : HG.new (⟨⟨[1], 2⟩, ⟨[7], 1⟩⟩) ⟨⟨[0], 1⟩, ⟨[], 1⟩⟩ ["A"] ["f"] =
       .ok ⟨⟨⟨[1], 2⟩, ⟨[7], 1⟩⟩, ⟨⟨[0], 1⟩, ⟨[], 1⟩⟩, ["A"], ["f"]⟩ ∧
     ¬ (⟨⟨⟨[1], 2⟩, ⟨[7], 1⟩⟩, ⟨⟨[0], 1⟩, ⟨[], 1⟩⟩, ["A"], ["f"]⟩ : HG String String).WF := by
-  decide
+  exact ⟨rfl, by decide⟩
 
 /-- `OpenHypergraph::new`: errors of the inner hypergraph are propagated; then the two cospan
     conditions are checked in order -/
@@ -195,13 +197,13 @@ example : OHG.new ⟨[0, 2], 3⟩ ⟨[1], 3⟩
       HG String String) =
     .ok ⟨⟨[0, 2], 3⟩, ⟨[1], 3⟩,
       ⟨⟨⟨[2, 0], 3⟩, ⟨[0, 1], 3⟩⟩, ⟨⟨[1, 1], 3⟩, ⟨[2, 2], 3⟩⟩, ["A", "B", "C"], ["f", "g"]⟩⟩ := by
-  decide
+  rfl
 example : OHG.new ⟨[0, 2], 3⟩ ⟨[1], 4⟩
     (⟨⟨⟨[2, 0], 3⟩, ⟨[0, 1], 3⟩⟩, ⟨⟨[1, 1], 3⟩, ⟨[2, 2], 3⟩⟩, ["A", "B", "C"], ["f", "g"]⟩ :
-      HG String String) = .error .cospanTargetType := by decide
+      HG String String) = .error .cospanTargetType := rfl
 example : OHG.new ⟨[0, 2], 3⟩ ⟨[1], 4⟩
     (⟨⟨⟨[2, 0], 3⟩, ⟨[0, 1], 3⟩⟩, ⟨⟨[1], 3⟩, ⟨[2, 2], 3⟩⟩, ["A", "B", "C"], ["f", "g"]⟩ :
-      HG String String) = .error .targetsCount := by decide
+      HG String String) = .error .targetsCount := rfl
 
 /-! ## boundary types -/
 
@@ -236,7 +238,7 @@ theorem identity_wf_type (w : List O) :
 
 example : (OHG.identity ["A", "B"] : Res (OHG String String)) =
     .ok ⟨⟨[0, 1], 2⟩, ⟨[0, 1], 2⟩, ⟨⟨⟨[], 1⟩, ⟨[], 2⟩⟩, ⟨⟨[], 1⟩, ⟨[], 2⟩⟩, ["A", "B"], []⟩⟩ := by
-  decide
+  rfl
 
 /-- symmetry: the discrete diagram on `b ++ a`, source interface the block swap, target interface
     the identity; `a ● b → b ● a` -/
@@ -267,7 +269,7 @@ theorem twist_wf_type (a b : List O) :
 
 example : (OHG.twist ["A", "B"] ["C"] : Res (OHG String String)) =
     .ok ⟨⟨[1, 2, 0], 3⟩, ⟨[0, 1, 2], 3⟩,
-      ⟨⟨⟨[], 1⟩, ⟨[], 3⟩⟩, ⟨⟨[], 1⟩, ⟨[], 3⟩⟩, ["C", "A", "B"], []⟩⟩ := by decide
+      ⟨⟨⟨[], 1⟩, ⟨[], 3⟩⟩, ⟨⟨[], 1⟩, ⟨[], 3⟩⟩, ["C", "A", "B"], []⟩⟩ := rfl
 
 /-- `spider` is absent exactly when an interface does not have the nodes `w` as codomain; it never
     panics and otherwise returns the discrete diagram on `w` with the given interfaces -/
@@ -304,7 +306,7 @@ example : (⟨[2, 0, 2], 3⟩ : FinFun).WF ∧ (⟨[1], 3⟩ : FinFun).WF ∧
     ((OHG.spider ⟨[2, 0, 2], 3⟩ ⟨[1], 3⟩ ["A", "B", "C"] : Res (OHG String String)).bind
       fun r => r.source) = .ok ["C", "A", "C"] := by decide
 example : (OHG.spider ⟨[2, 0, 2], 3⟩ ⟨[1], 2⟩ ["A", "B", "C"] : Res (OHG String String)) = .none := by
-  decide
+  rfl
 
 /-- half spider: target interface the identity -/
 theorem halfSpider_wf_type (s : FinFun) (w : List O) (hs : s.WF) (hsw : s.target = w.length) :
@@ -323,6 +325,45 @@ theorem halfSpider_wf_type (s : FinFun) (w : List O) (hs : s.WF) (hsw : s.target
   · show (⟨w, [], s.table, List.range s.target⟩ : PDiag O A) = _
     rw [hsw]
 
+example : (⟨[2, 0, 2], 3⟩ : FinFun).WF ∧
+    (OHG.halfSpider ⟨[2, 0, 2], 3⟩ ["A", "B", "C"] : Res (OHG String String)) =
+      .ok ⟨⟨[2, 0, 2], 3⟩, ⟨[0, 1, 2], 3⟩, HG.discrete ["A", "B", "C"]⟩ := ⟨by decide, rfl⟩
+
+/-! ## discrete hypergraphs and coproducts of hypergraphs -/
+
+/-- the empty and the discrete hypergraphs are well-formed and have no edges -/
+theorem hg_discrete_wf (w : List O) :
+    (HG.discrete w : HG O A).WF ∧ (HG.discrete w : HG O A).isDiscrete = true ∧
+    (HG.discrete w : HG O A).w = w ∧ (HG.empty : HG O A).WF ∧
+    (HG.empty : HG O A) = HG.discrete [] :=
+  ⟨HG.discrete_WF w, rfl, rfl, HG.discrete_WF [], rfl⟩
+
+/-- coproduct of well-formed hypergraphs: well-formed; nodes and edges concatenated, the second
+    operand's node references shifted -/
+theorem hg_coproduct_wf (g h : HG O A) (hg : g.WF) (hh : h.WF) :
+    ∃ r, HG.coproduct g h = .ok r ∧ r.WF ∧ r.w = g.w ++ h.w ∧ r.x = g.x ++ h.x ∧
+      r.s.segs = g.s.segs ++ h.s.segs.map (·.map (g.w.length + ·)) ∧
+      r.t.segs = g.t.segs ++ h.t.segs.map (·.map (g.w.length + ·)) := by
+  have segs : ∀ c d : IC FinFun, c.WF → d.WF →
+      (IC.tensorR c d).segs = c.segs ++ d.segs.map (·.map (c.values.target + ·)) := by
+    intro c d hc hd
+    obtain ⟨e, he, _, hsegs, _⟩ := C08.tensor_spec c d hc.valid hd.valid
+    rw [IC.tensor_eq' c d hc hd] at he
+    injection he with he
+    rw [he]; exact hsegs
+  refine ⟨_, HG.coproduct_eq g h hg hh, HG.coproductR_WF g h hg hh, rfl, rfl, ?_, ?_⟩
+  · show (IC.tensorR g.s h.s).segs = _
+    rw [segs _ _ hg.src hh.src, hg.src_nodes]
+  · show (IC.tensorR g.t h.t).segs = _
+    rw [segs _ _ hg.tgt hh.tgt, hg.tgt_nodes]
+
+example :
+    let g : HG String String := ⟨⟨⟨[2], 3⟩, ⟨[0, 1], 3⟩⟩, ⟨⟨[1], 2⟩, ⟨[2], 3⟩⟩, ["A", "B", "C"], ["f"]⟩
+    let h : HG String String := ⟨⟨⟨[1], 2⟩, ⟨[0], 2⟩⟩, ⟨⟨[1], 2⟩, ⟨[1], 2⟩⟩, ["C", "D"], ["y"]⟩
+    g.WF ∧ h.WF ∧ HG.coproduct g h =
+      .ok ⟨⟨⟨[2, 1], 4⟩, ⟨[0, 1, 3], 5⟩⟩, ⟨⟨[1, 1], 3⟩, ⟨[2, 4], 5⟩⟩,
+        ["A", "B", "C", "C", "D"], ["f", "y"]⟩ := ⟨by decide, by decide, rfl⟩
+
 /-! ## dagger -/
 
 /-- dagger keeps the hypergraph, swaps the interfaces and hence the boundary types -/
@@ -333,6 +374,12 @@ theorem dagger_wf_type (f : OHG O A) (hf : f.WF) :
   refine ⟨hd, ?_, ?_, rfl, rfl, rfl, rfl⟩
   · rw [OHG.source_eq _ hd.src_wf hd.src_nodes, OHG.target_eq _ hf.tgt_wf hf.tgt_nodes]; rfl
   · rw [OHG.target_eq _ hd.tgt_wf hd.tgt_nodes, OHG.source_eq _ hf.src_wf hf.src_nodes]; rfl
+
+example :
+    let f : OHG String String :=
+      ⟨⟨[0, 1], 3⟩, ⟨[2], 3⟩, ⟨⟨⟨[2], 3⟩, ⟨[0, 1], 3⟩⟩, ⟨⟨[1], 2⟩, ⟨[2], 3⟩⟩, ["A", "B", "C"], ["f"]⟩⟩
+    f.WF ∧ f.dagger.source = .ok ["C"] ∧ f.dagger.target = .ok ["A", "B"] :=
+  ⟨by decide, by decide, by decide⟩
 
 /-- without well-formedness only the panic site distinguishes the two sides -/
 example : (⟨⟨[0], 5⟩, ⟨[0], 1⟩, HG.discrete ["A"]⟩ : OHG String String).dagger.target =
@@ -431,7 +478,7 @@ example :
     C08.Valid ops.a ∧ C08.Valid ops.b ∧ ops.x.length = ops.a.len ∧ ops.x.length = ops.b.len ∧
     OHG.tensorOperations ops = .ok ⟨⟨[0, 1, 2], 5⟩, ⟨[3, 4], 5⟩,
       ⟨⟨⟨[2, 0, 1], 4⟩, ⟨[0, 1, 2], 5⟩⟩, ⟨⟨[0, 1, 1], 3⟩, ⟨[3, 4], 5⟩⟩,
-        ["A", "B", "C", "D", "E"], ["f", "g", "h"]⟩⟩ := by decide
+        ["A", "B", "C", "D", "E"], ["f", "g", "h"]⟩⟩ := ⟨by decide, by decide, rfl, rfl, rfl⟩
 
 /-- a single operation `x : a → b`: nodes `a ++ b`, one edge labelled `x` whose source list is the
     first `|a|` nodes and whose target list the next `|b|` nodes, interfaces the same lists -/
@@ -449,7 +496,7 @@ theorem singleton_wf_type (x : A) (a b : List O) :
 
 example : (OHG.singleton "f" ["A", "B"] ["C"] : Res (OHG String String)) =
     .ok ⟨⟨[0, 1], 3⟩, ⟨[2], 3⟩,
-      ⟨⟨⟨[2], 3⟩, ⟨[0, 1], 3⟩⟩, ⟨⟨[1], 2⟩, ⟨[2], 3⟩⟩, ["A", "B", "C"], ["f"]⟩⟩ := by decide
+      ⟨⟨⟨[2], 3⟩, ⟨[0, 1], 3⟩⟩, ⟨⟨[1], 2⟩, ⟨[2], 3⟩⟩, ["A", "B", "C"], ["f"]⟩⟩ := rfl
 
 /-! ## tensor -/
 
@@ -496,7 +543,7 @@ example :
     f.WF ∧ g.WF ∧
     OHG.tensor f g = .ok ⟨⟨[0, 1, 4, 3], 5⟩, ⟨[2, 3, 4], 5⟩,
       ⟨⟨⟨[2], 3⟩, ⟨[0, 1], 5⟩⟩, ⟨⟨[1], 2⟩, ⟨[2], 5⟩⟩, ["A", "B", "C", "D", "E"], ["f"]⟩⟩ := by
-  decide
+  exact ⟨by decide, by decide, rfl⟩
 
 /-! ## quotienting the nodes -/
 
@@ -543,7 +590,18 @@ example :
     h.WF ∧ q.WF ∧ q.source = h.w.length ∧
     HG.coequalizeVertices vecBackend h q =
       .ok ⟨⟨⟨[2, 0], 3⟩, ⟨[0, 1], 2⟩⟩, ⟨⟨[1, 1], 3⟩, ⟨[0, 0], 2⟩⟩, ["A", "B"], ["f", "g"]⟩ := by
-  decide
+  exact ⟨by decide, by decide, rfl, rfl⟩
+
+example : C06.Surj ⟨[0, 1, 0], 2⟩ ∧ FinFun.ConstOnFibres ⟨[0, 1, 0], 2⟩ ["A", "B", "A"] := by
+  refine ⟨by unfold C06.Surj; decide, ?_⟩
+  intro i j h hi hj
+  revert h
+  rcases i with _ | _ | _ | i <;> rcases j with _ | _ | _ | j <;> simp
+
+/-- surjectivity cannot be dropped: the empty map into a non-empty codomain makes the `expect`
+    inside `coequalizer_universal` fire (same phenomenon as in C06) -/
+example : HG.coequalizeVertices vecBackend (HG.empty : HG String String) ⟨[], 5⟩ =
+    .panic "coequalizer_universal:expect" := rfl
 
 /-! ## composition -/
 
@@ -644,6 +702,15 @@ example :
       ⟨⟨[0, 1], 3⟩, ⟨[2], 3⟩, ⟨⟨⟨[2], 3⟩, ⟨[0, 1], 3⟩⟩, ⟨⟨[1], 2⟩, ⟨[2], 3⟩⟩, ["A", "B", "C"], ["x"]⟩⟩
     let g : OHG String String :=
       ⟨⟨[0], 2⟩, ⟨[1], 2⟩, ⟨⟨⟨[1], 2⟩, ⟨[0], 2⟩⟩, ⟨⟨[1], 2⟩, ⟨[1], 2⟩⟩, ["C", "D"], ["y"]⟩⟩
-    f.WF ∧ g.WF ∧ f.target = g.source := by decide
+    f.WF ∧ g.WF ∧ f.target = g.source ∧ vecBackend.Lawful ∧
+    OHG.compose vecBackend f g = .ok ⟨⟨[0, 1], 4⟩, ⟨[3], 4⟩,
+      ⟨⟨⟨[2, 1], 4⟩, ⟨[0, 1, 2], 4⟩⟩, ⟨⟨[1, 1], 3⟩, ⟨[2, 3], 4⟩⟩,
+        ["A", "B", "C", "D"], ["x", "y"]⟩⟩ :=
+  ⟨by decide, by decide, by decide, vecBackend_lawful, rfl⟩
+
+/-- type mismatch: absent -/
+example : OHG.compose vecBackend
+    (⟨⟨[0], 1⟩, ⟨[0], 1⟩, HG.discrete ["A"]⟩ : OHG String String)
+    ⟨⟨[0], 1⟩, ⟨[0], 1⟩, HG.discrete ["B"]⟩ = .none := rfl
 
 end OH.C05
